@@ -67,15 +67,15 @@ Proof. exact fixed_defects_regression. Qed.
 
 (* for every pattern fnmatch can read (plain characters, `*`, `?`, `\x`, bracket lists and
    ranges) without an unquoted `+`: the regex built by fnmatch_to_regex compiles, and on
-   every name without a line feed it decides exactly what fnmatch decides *)
+   every name (line feeds included, since d70d0d9) it decides exactly what fnmatch decides *)
 Theorem C15_translator_is_fnmatch :
   forall p fts, fn_tokens p = Some fts -> has_plus p = false ->
     compile p = POk (map rep_of fts) /\
-    forall s, has_newline s = false -> reps_match (map rep_of fts) s = fn_match fts s.
+    forall s, reps_match (map rep_of fts) s = fn_match fts s.
 Proof. exact compile_is_fnmatch. Qed.
 
 (* the partition test of both call sites is the PARTITION rule of DDS 1.4 on all lists of
-   supported names outside the four recorded deviation classes *)
+   supported names outside the three recorded deviation classes *)
 Theorem C15_partition_match_eq_spec :
   forall received local,
     names_supported received = true -> names_supported local = true ->
@@ -90,17 +90,15 @@ Theorem C15_partition_roles_symmetric :
 Proof. exact (fun a b => conj (partition_matched_sym a b) (dds_partition_match_sym a b)). Qed.
 
 (* each deviation class contains a pair of lists on which the code and the standard differ:
-   "a+" ~ "aa";  [] vs [""];  "a*" ~ "ab*";  "a?b" vs "a<LF>b" *)
+   "a+" ~ "aa";  [] vs [""];  "a*" ~ "ab*" *)
 Theorem C15_partition_classes_refuted :
   (exists a b, known_plus a b = true /\ partition_matched a b = Some true /\ dds_partition_match a b = false) /\
   (exists a b, known_default a b = true /\ partition_matched a b = Some false /\ dds_partition_match a b = true) /\
-  (exists a b, known_two_wildcards a b = true /\ partition_matched a b = Some true /\ dds_partition_match a b = false) /\
-  (exists a b, known_newline a b = true /\ partition_matched a b = Some false /\ dds_partition_match a b = true).
+  (exists a b, known_two_wildcards a b = true /\ partition_matched a b = Some true /\ dds_partition_match a b = false).
 Proof.
   exact (conj (ex_intro _ _ (ex_intro _ _ plus_refuted))
         (conj (ex_intro _ _ (ex_intro _ _ default_refuted))
-        (conj (ex_intro _ _ (ex_intro _ _ two_wildcards_refuted))
-              (ex_intro _ _ (ex_intro _ _ newline_refuted))))).
+              (ex_intro _ _ (ex_intro _ _ two_wildcards_refuted)))).
 Qed.
 
 (* ---- the whole decision ---- *)
@@ -113,7 +111,7 @@ Theorem C15_both_sides_agree :
 Proof. exact both_sides_agree. Qed.
 
 (* matched iff topic names equal, types compatible, partitions match per DDS, every RxO
-   policy compatible per the DDS table; config_known is now only the four partition
+   policy compatible per the DDS table; config_known is now only the three partition
    deviation classes (known_partition of the two name lists) *)
 Theorem C15_writer_side_matched_iff_spec :
   forall c, config_in_domain c = true -> config_known c = false ->
@@ -159,6 +157,12 @@ Example C15_nonvacuous_partition :
   known_partition [[97; 91; 97; 45; 99; 93; 42]; [120]] [[121]; [97; 98; 122; 122]] = false /\
   partition_matched [[97; 91; 97; 45; 99; 93; 42]; [120]] [[121]; [97; 98; 122; 122]] = Some true.
 Proof. exact partition_example. Qed.
+
+(* regression of d70d0d9: `?` and `*` match a line feed *)
+Example C15_newline_regression :
+  partition_matched [[97; 63; 98]] [[97; 10; 98]] = Some true /\ dds_partition_match [[97; 63; 98]] [[97; 10; 98]] = true /\
+  partition_matched [[97; 42; 98]] [[97; 10; 98]] = Some true /\ known_partition [[97; 63; 98]] [[97; 10; 98]] = false.
+Proof. exact newline_regression. Qed.
 
 Print Assumptions C15_reader_side_eq_spec.
 Print Assumptions C15_writer_side_eq_spec.
